@@ -9,7 +9,7 @@ const char* const H_PROPERTY = "C03";
 
 #define MAXFB 8
 #define MAXOPS 6
-static fiber_mutex_t mtx[2];
+static fiber_mutex_t* mtx; /* two mutexes in heap memory with arbitrary previous contents */
 static int occ[2], owner[2];
 static long counter[2], expected[2];
 static int nfib, nmtx;
@@ -82,6 +82,7 @@ void h_run(void) {
   if (blocking >= 2) sim_nontrivial();
   sim_fiber_mode();
   fiber_manager_init(c.threads);
+  mtx = h_dirty_alloc(2 * sizeof *mtx);
   for (int m = 0; m < nmtx; m++) fiber_mutex_init(&mtx[m]);
   fiber_t* f[MAXFB];
   for (int i = 0; i < nfib; i++) f[i] = fiber_create(STK, fib, (void*)(intptr_t)i);
